@@ -12,7 +12,10 @@ LEVEL_TEXT = (
     'N around what fills a 4096 or 65535 byte message, attribute blocks whose community / large-community / AS_PATH attributes cross '
     '255/256 bytes and leave room for 0, 1 or 2 prefixes, IPv4 and MP families, ADD-PATH on/off, withdraws mixed in) are entered while the '
     'peer send window is closed so that one update generator packs them; the remote speaker checks every message length against the '
-    'negotiated maximum, reference-decodes each message on its own, and compares the union with the structured request.'
+    'negotiated maximum, reference-decodes each message on its own, and compares the union with the structured request. '
+    'Because the Adj-RIB-Out never hands the packer more than one MP route (or a mixed set) at a time, a third of the plans ("direct") '
+    'take the live session\'s real Negotiated object and call UpdateCollection.messages() on one collection mixing IPv4, MP families, '
+    'announces and withdraws with counts around what fills a message and attribute blocks leaving 5-300 bytes of room; same oracle.'
 )
 LEVEL_NOTE = 'trusts: reference codec; routes whose attribute block is within 48 bytes of the point where not even one prefix fits may legitimately be sent or skipped (either is accepted), beyond that the verdict is strict'
 DESIGN_REF = 'DESIGN.md section 5, C09'
@@ -30,10 +33,63 @@ def counts(tier: str):
     return (120, 75.0) if tier == 'quick' else (8000, 900.0)
 
 
+def generate_direct(rng, tier: str, kind: dict) -> dict:
+    mx = 65535 if kind['extmsg'] else 4096
+    cols = []
+    uid = [0]
+
+    def fresh(fam: str) -> dict:
+        uid[0] += 1
+        i = uid[0]
+        ap = {'pid': rng.choice([1, 2, 77])} if kind['addpath'] else {}
+        if fam == 'v6u':
+            bits = rng.choice([128, 128, 64, 48])
+            return dict({'fam': 'v6u', 'p': str(__import__('ipaddress').ip_network(f'2001:db8:{i >> 8:x}:{i & 255:x}::{1 if bits == 128 else 0}/{bits}', strict=False)), 'nh': rng.choice(['2001:db8::1', '2001:db8::1', '2001:db8::2'])}, **ap)
+        if fam == 'v4l':
+            return dict({'fam': 'v4l', 'p': f'10.{(i >> 16) & 255}.{(i >> 8) & 255}.{i & 255}/32', 'nh': '10.0.0.9', 'labels': [100 + i % 1000]}, **ap)
+        if fam == 'v4vpn':
+            return dict({'fam': 'v4vpn', 'p': f'10.{(i >> 16) & 255}.{(i >> 8) & 255}.{i & 255}/32', 'nh': '10.0.0.9', 'labels': [100 + i % 1000], 'rd': '65000:1'}, **ap)
+        bits = rng.choice([32, 32, 24, 8])
+        return dict({'fam': 'v4u', 'p': str(__import__('ipaddress').ip_network(f'10.{(i >> 16) & 255}.{(i >> 8) & 255}.{i & 255}/{bits}', strict=False)), 'nh': '10.0.0.9'}, **ap)
+
+    for _ in range(rng.randint(1, 3)):
+        attrs = RT.gen_attrs(rng, rich=0.3)
+        attrs.pop('generic', None)
+        for key in ('comm', 'large', 'ext'):
+            if len(attrs.get(key, [])) > 3:
+                attrs[key] = attrs[key][:3]
+        room = rng.choice([None, None, 5, 8, 12, 17, 20, 22, 26, 40, 60, 250, 255, 258, 262, 267, 270, 300, 600])
+        if room is not None:
+            room += rng.randint(-3, 3)
+        sizes = {}
+        for fam in ('v4u', 'v6u', 'v4l', 'v4vpn'):
+            per = {'v4u': 5, 'v6u': 17, 'v4l': 8, 'v4vpn': 16}[fam] + (4 if kind['addpath'] else 0)
+            fit = max(1, ((room if room is not None else mx - 100)) // per)
+            if room is None and mx > 4096:
+                fit = min(fit, 400)
+            sizes[fam] = [rng.choice([0, 0, 0, 1, 2, 5, fit - 1, fit, fit + 1, 2 * fit + 1, 3 * fit]) if rng.chance(0.6) else 0 for _ in range(2)]
+        if not any(n for v in sizes.values() for n in v):
+            sizes[rng.choice(['v4u', 'v6u'])][0] = 3
+        seen = set()
+        ann, wd = [], []
+        for fam, (na, nw) in sizes.items():
+            for lst, n in ((ann, na), (wd, nw)):
+                for _ in range(max(0, min(n, 1500))):
+                    r = fresh(fam)
+                    if (fam, r['p']) in seen:
+                        continue
+                    seen.add((fam, r['p']))
+                    lst.append(r)
+        cols.append({'attrs': attrs, 'room': room, 'announce': ann, 'withdraw': wd})
+    return {'mode': 'direct', 'micro_seed': rng.randint(1, 1 << 48), 'knobs': knobs(rng, tick=0.002), 'kind': kind, 'collections': cols}
+
+
 def generate(rng, tier: str, index: int) -> dict:
     kind = RT.gen_kind(rng, 0)
     kind['extmsg'] = rng.chance(0.35)
     kind['group_updates'] = True
+    if index % 3 == 2:
+        return generate_direct(rng, tier, kind)
     mx = 65535 if kind['extmsg'] else 4096
     batches = []
     uid = [0]
@@ -94,7 +150,144 @@ def generate(rng, tier: str, index: int) -> dict:
     return {'micro_seed': rng.randint(1, 1 << 48), 'knobs': knobs(rng, tick=rng.choice([0.001, 0.002, 0.005])), 'kind': kind, 'batches': batches}
 
 
+def execute_direct(plan: dict) -> dict:
+    """UpdateCollection.messages() called with the live session's Negotiated on mixed collections"""
+    w = make_world(plan)
+    k = plan['kind']
+    sp = Speaker(w, 'p0', k['peer_ip'], k['peer_as'], k['peer_ip'], RT.LOCAL, hold=600, caps=speaker_caps(RT.kind_speaker_spec(k)))
+    conf = RT.kind_conf(k)
+    conf['hold'] = 600
+    w.boot(config_text([{'name': 'h1'}], [conf]))
+    neg = RT.negotiated_of(k)
+    probes = {'collections': len(plan['collections']), 'routes': 0, 'updates': 0, 'multi_message_batches': 0, 'big_attribute_blocks': 0, 'near_limit_routes': 0, 'over_limit_routes': 0, 'mixed_family_collections': 0, 'mp_attribute_crossing_255': 0}
+    violations: list[dict] = []
+
+    def pack_all() -> None:
+        from exabgp.bgp.message.update.collection import RoutedNLRI, UpdateCollection
+        from exabgp.rib.route import Route  # noqa: F401
+
+        s = sp.established()
+        peer = w.peer_for(k['peer_ip'])
+        if s is None or peer is None or peer.proto is None:
+            raise RuntimeError('no established session for the direct packing plan')
+        negotiated = peer.proto.negotiated
+        api = w.reactor.api
+        for col in plan['collections']:
+            attrs_dict = dict(col['attrs'])
+
+            def parse(r: dict, attrs: dict):
+                routes = api.api_route(RT.route_text(dict(r, attrs=attrs)), 'announce')
+                if len(routes) != 1:
+                    raise RuntimeError(f'route text did not parse to one route: {RT.route_text(dict(r, attrs=attrs))[:200]}')
+                return routes[0]
+
+            first = (col['announce'] or col['withdraw'])[0]
+            base = parse(first, attrs_dict)
+            base_len = len(base.attributes.pack_attribute(negotiated, True))
+            if col.get('room') is not None:
+                filler = (neg['max'] - 23 - base_len) - col['room'] - 4
+                if filler > 0:
+                    attrs_dict['generic'] = [240, 0xC0, 'ab' * filler]
+                    base = parse(first, attrs_dict)
+            attributes = base.attributes
+            attr_len = len(attributes.pack_attribute(negotiated, True))
+            room = neg['max'] - 23 - attr_len
+            ann = [parse(r, attrs_dict) for r in col['announce']]
+            wdr = [parse(r, {}) for r in col['withdraw']]
+            fams = {r['fam'] for r in col['announce']} | {r['fam'] for r in col['withdraw']}
+            if len(fams) > 1:
+                probes['mixed_family_collections'] += 1
+            uc = UpdateCollection([RoutedNLRI(r.nlri, r.nexthop) for r in ann], [r.nlri for r in wdr], attributes)
+            try:
+                msgs = [bytes(m) for m in uc.messages(negotiated)]
+            except Exception as exc:  # noqa: BLE001
+                import traceback
+
+                tb = [ln.strip() for ln in traceback.format_exc().splitlines() if 'File "' in ln][-2:]
+                violations.append(viol('C09/packing-raised', f'UpdateCollection.messages() raised {type(exc).__name__}: {exc} {tb} (room {room}, {len(ann)} announces, {len(wdr)} withdraws, families {sorted(fams)})', error=type(exc).__name__))
+                return
+            table = R.PeerTable()
+            withdrawn_seen = set()
+            if len(msgs) > 1:
+                probes['multi_message_batches'] += 1
+            for m in msgs:
+                probes['updates'] += 1
+                if len(m) > neg['max']:
+                    violations.append(viol('C09/oversized-update', f'an UPDATE of {len(m)} bytes was generated, negotiated maximum {neg["max"]} (room {room}, {len(ann)} announces, {len(wdr)} withdraws, families {sorted(fams)})', size=len(m), max=neg['max']))
+                    return
+                if int.from_bytes(m[16:18], 'big') != len(m) or m[18] != 2:
+                    violations.append(viol('C09/update-does-not-parse', f'header length {int.from_bytes(m[16:18], "big")} for {len(m)} bytes'))
+                    return
+                try:
+                    d = table.apply(m[19:], s.ctx)
+                except R.RefError as exc:
+                    violations.append(viol('C09/update-does-not-parse', f'{exc}: {m[19:].hex()[:200]}'))
+                    return
+                wl, al, nl = R.split_update(m[19:])
+                if len(al) > 255:
+                    probes['big_attribute_blocks'] += 1
+                for fl, code, v in R.split_attributes(al):
+                    if code in (14, 15) and 250 <= len(v) <= 262:
+                        probes['mp_attribute_crossing_255'] += 1
+                if d['eor'] is not None:
+                    violations.append(viol('C09/unrequested-route', f'a message without any NLRI (read as End-of-RIB {d["eor"]}) was generated'))
+                    return
+                for n in d['withdraw']:
+                    withdrawn_seen.add(R.route_key(n))
+            # every requested announce present with the requested attributes, unless it cannot fit
+            overhead = {'v4u': 0, 'v6u': 3 + 4 + 16 + 1 + 1, 'v4l': 3 + 4 + 4 + 1 + 1, 'v4vpn': 3 + 4 + 12 + 1 + 1}
+            want_keys = set()
+            for r in col['announce']:
+                probes['routes'] += 1
+                for key, val in RT.expected_routes(dict(r, attrs=attrs_dict), k):
+                    want_keys.add(key)
+                    have = table.routes.get(key)
+                    nlri_len = len(R.enc_prefix(r['p'])) + (4 if neg['addpath'] else 0) + (3 * len(r.get('labels', []))) + (8 if r.get('rd') else 0)
+                    slack = room - overhead[r['fam']] - nlri_len
+                    if slack < -1:
+                        probes['over_limit_routes'] += 1
+                        if have is not None:
+                            violations.append(viol('C09/route-not-withdrawn-or-unsendable-sent', f'{key} was sent although its attributes leave no room for it (room {room})'))
+                            return
+                        continue
+                    if slack <= 2:
+                        probes['near_limit_routes'] += 1
+                        if have is None:
+                            continue
+                    d2 = RT.diff_entry(have, val)
+                    if d2:
+                        violations.append(viol('C09/route-lost-or-changed', f'direct packing (room {room}, {len(ann)} announces, {len(wdr)} withdraws, families {sorted(fams)}, {len(msgs)} messages): {key}: {d2}', what=d2.split(':')[0][:40]))
+                        return
+            extra = [key for key in table.routes if key not in want_keys]
+            if extra:
+                violations.append(viol('C09/unrequested-route', f'direct packing: messages announce {extra[:3]} which nobody requested'))
+                return
+            want_wd = set()
+            for r in col['withdraw']:
+                probes['routes'] += 1
+                for key, val in RT.expected_routes(dict(r, attrs={}), k):
+                    want_wd.add(key)
+                    nlri_len = len(R.enc_prefix(r['p'])) + (4 if neg['addpath'] else 0) + (3 * len(r.get('labels', []))) + (8 if r.get('rd') else 0)
+                    wroom = neg['max'] - 23 - attr_len  # the packer keeps the attribute room for withdraws as well: accepted
+                    slack = wroom - (0 if r['fam'] == 'v4u' else 3 + 3 + 1) - nlri_len
+                    if key not in withdrawn_seen and slack > 2:
+                        violations.append(viol('C09/route-lost-or-changed', f'direct packing (room {room}, {len(ann)} announces, {len(wdr)} withdraws, families {sorted(fams)}, {len(msgs)} messages): withdraw of {key} is in no message', what='withdraw missing'))
+                        return
+            extra = [key for key in withdrawn_seen if key not in want_wd]
+            if extra:
+                violations.append(viol('C09/unrequested-route', f'direct packing: messages withdraw {extra[:3]} which nobody requested'))
+                return
+
+    w.at(2.0, pack_all)
+    w.at(2.5, lambda: w.signal('SHUTDOWN'))
+    w.run(until=30.0)
+    nontrivial = probes['multi_message_batches'] + probes['big_attribute_blocks'] > 0
+    return result(w, violations[:1], probes=probes, faults={'direct_collections': probes['collections']}, nontrivial=nontrivial, sample={'kind': plan['kind'], 'collections': [(c.get('room'), len(c['announce']), len(c['withdraw'])) for c in plan['collections']]})
+
+
 def execute(plan: dict) -> dict:
+    if plan.get('mode') == 'direct':
+        return execute_direct(plan)
     w = make_world(plan)
     k = plan['kind']
     sp = Speaker(w, 'p0', k['peer_ip'], k['peer_as'], k['peer_ip'], RT.LOCAL, hold=600, caps=speaker_caps(RT.kind_speaker_spec(k)))
@@ -248,7 +441,48 @@ def execute(plan: dict) -> dict:
     return result(w, violations[:1], probes=probes, faults={'closed_window_entries': probes['batches']}, nontrivial=nontrivial, sample={'kind': plan['kind'], 'batches': [(b['kind'], len(b['routes']), b['withdraw_frac']) for b in plan['batches']]})
 
 
+def shrink_direct(plan: dict):
+    from exasim.runner import generic_candidates
+
+    if len(plan['collections']) > 1:
+        for i in range(len(plan['collections'])):
+            p = jclone(plan)
+            p['collections'] = [plan['collections'][i]]
+            yield p
+    for ci, c in enumerate(plan['collections']):
+        for key in ('announce', 'withdraw'):
+            n = len(c[key])
+            for keep in (0, 1, n // 2, n - 1):
+                if 0 <= keep < n:
+                    p = jclone(plan)
+                    p['collections'][ci][key] = c[key][:keep]
+                    if p['collections'][ci]['announce'] or p['collections'][ci]['withdraw']:
+                        yield p
+            for fam in ('v4u', 'v6u', 'v4l', 'v4vpn'):
+                if any(r['fam'] == fam for r in c[key]) and any(r['fam'] != fam for r in c['announce'] + c['withdraw']):
+                    p = jclone(plan)
+                    p['collections'][ci][key] = [r for r in c[key] if r['fam'] != fam]
+                    if p['collections'][ci]['announce'] or p['collections'][ci]['withdraw']:
+                        yield p
+        for akey in list(c['attrs']):
+            p = jclone(plan)
+            del p['collections'][ci]['attrs'][akey]
+            yield p
+    k = plan['kind']
+    for key, val in (('addpath', False), ('extmsg', False)):
+        if k.get(key) != val:
+            p = jclone(plan)
+            p['kind'][key] = val
+            if key == 'addpath':
+                p['kind'].pop('ap_local', None)
+                p['kind'].pop('ap_peer', None)
+            yield p
+
+
 def shrink_candidates(plan: dict):
+    if plan.get('mode') == 'direct':
+        yield from shrink_direct(plan)
+        return
     from exasim.runner import generic_candidates
 
     yield from generic_candidates(plan, ['batches'])
@@ -268,4 +502,7 @@ def shrink_candidates(plan: dict):
         if k.get(key) != val:
             p = jclone(plan)
             p['kind'][key] = val
+            if key == 'addpath':
+                p['kind'].pop('ap_local', None)
+                p['kind'].pop('ap_peer', None)
             yield p
